@@ -10,6 +10,7 @@ import Woodpile.Driver.Iovec
 import Woodpile.Driver.CodecW
 import Woodpile.Driver.RoughTlv
 import Woodpile.Driver.Hcobs
+import Woodpile.Driver.StreamWorld
 
 open Woodpile.Driver
 
@@ -29,6 +30,8 @@ def families : List (String × Family) :=
   ++ [("nfs", NfsFam.family)]
   ++ [("chunker", StreamFam.chunkerFamily)]
   ++ [("reader", StreamFam.readerFamily)]
+  ++ [("chunkerw", StreamWorldFam.chunkerwFamily)]
+  ++ [("readerw", StreamWorldFam.readerwFamily)]
 
 def main (args : List String) : IO UInt32 := do
   match args with
